@@ -228,6 +228,8 @@ def seq_eq(a: V, b: V):
 
 def val_eq(a, b):
     """Python == between two values."""
+    if isinstance(a, V) and a.ty == T.SINK and isinstance(b, V) and b.ty == T.SINK:
+        return a.z == b.z          # same abstract value => equal; otherwise the solver is free to choose
     if (isinstance(a, V) and a.ty == T.SINK) or (isinstance(b, V) and b.ty == T.SINK):
         return z3.Bool(T.fresh_name("sink_eq"))
     if isinstance(a, K) and isinstance(b, K):
